@@ -6,6 +6,7 @@ from abc import ABC
 from abc import abstractmethod
 from typing import TYPE_CHECKING
 from typing import Generic
+from typing import Iterable
 from typing import List
 from typing import Sequence
 from typing import TypeVar
@@ -14,6 +15,7 @@ from jsonpath_rfc9535.function_extensions.filter_function import ExpressionType
 from jsonpath_rfc9535.function_extensions.filter_function import FilterFunction
 
 from .exceptions import JSONPathTypeError
+from .node import JSONPathNode
 from .node import JSONPathNodeList
 from .serialize import canonical_string
 
@@ -287,7 +289,14 @@ class RelativeFilterQuery(FilterQuery):
 
     def evaluate(self, context: FilterContext) -> object:
         """Evaluate the filter expression in the given _context_."""
-        return JSONPathNodeList(self.query.find(context.current))
+        nodes: Iterable[JSONPathNode] = [
+            JSONPathNode(value=context.current, location=(), root=context.root)
+        ]
+
+        for segment in self.query.segments:
+            nodes = segment.resolve(nodes)
+
+        return JSONPathNodeList(nodes)
 
 
 class RootFilterQuery(FilterQuery):
